@@ -61,36 +61,40 @@ example : valid litProg litBase [] (.node (.fact .edb) "flag" [.i32 2, .i32 1] [
 example : (whyTree { rules := litProg, base := litBase, derived := some [("p", [[.i64 1]])] } "p" [.i64 1]).toWire
     = "rule p i64:1 0 P=i64:3;X=i64:1 2 fact e i64:1,i64:3 edb neg flag i64:3,i32:1 c,c" := by decide
 
-/-- **C21 at full strength, about the model chainer**: for every program of the fragment, every
-    base, the derived data being the perfect model, every depth limit and every true tuple, the
-    tree that `.why` returns is accepted by the checker. -/
+/-- **C21 at full strength, about the model chainer** (repaired code: negated atoms are looked up in
+    base and derived data, `enumerate_derived_candidates` checks repeated variables): for every
+    well-formed program of the whole stratified fragment — `c21Fragment` is pure well-formedness:
+    supported terms, no `_` in heads, safe negation, consistent arities, no NaN constant, no variable
+    spelled `_placeholder_…`; negation over derived relations, repeated variables, recursion, several
+    clauses per head are all included —, every NaN-free base and derived data in which only relations
+    with rules have derived tuples, every depth limit, every relation and every NaN-free tuple (true or
+    not), the tree that `.why` returns — including the handler's fallback root — is accepted by `valid`.
+    Nothing is assumed about the derived data being correct or complete. -/
 def C21_statement : Prop :=
-  ∀ (prog : Program) (base M : DB) (rel : String) (t : Tuple) (depth : Nat),
-    prog.supported = true → pmEval prog base = some M → memL t (world base M rel) = true →
-    valid prog base M (whyTree { rules := prog, base := base, derived := some M, maxDepth := depth } rel t) = true
+  ∀ (prog : Program) (base M : DB) (rel : String) (tuple : Tuple) (depth : Nat),
+    c21Fragment prog = true → derivedOnlyHeads prog M = true →
+    goodDB base = true → goodDB M = true → tuple.all goodV = true →
+    valid prog base M (whyTree { rules := prog, base := base, derived := some M, maxDepth := depth } rel tuple) = true
 
-/-! Witness 1 (known finding `neg_over_derived`): `p(X) <- e(X,Y), !dr(Y)` with `dr` derived.
-    `p(1)` holds through `Y = 3`; the chainer takes the first match `Y = 2` and accepts `!dr(2)` because
-    it looks negated atoms up in base data only (prove_body.rs:86) — but `dr(2)` is derived. -/
+/-- **C21 (build_valid), full.** Proof: builder invariant (every node of the DAG locally valid, memo
+    table sound, bindings only extended by fresh variables) preserved by `build_node` / `prove_body` /
+    the clause loop / the candidate enumerator at every level of the depth tower
+    (ILV.Lemmas.ProvChain.level_ok), then unfolded (`valid_unfold`). -/
+theorem C21 : C21_statement :=
+  fun prog base M rel tuple depth hf hd hb hm ht => whyTree_valid prog base M rel tuple depth hf hd hb hm ht
+
+/-! The two former refutation witnesses (findings `neg_over_derived`, `repeated_var_over_derived`, fixed):
+    the repaired chainer now explains `p(1)` through `Y = 3` resp. through the second clause. -/
 def w1Prog : Program :=
   [⟨⟨"dr", [.var "Y"]⟩, [.pos ⟨"f", [.var "Y"]⟩]⟩,
    ⟨⟨"p", [.var "X"]⟩, [.pos ⟨"e", [.var "X", .var "Y"]⟩, .neg ⟨"dr", [.var "Y"]⟩]⟩]
 def w1Base : DB := [("e", [[.i64 1, .i64 2], [.i64 1, .i64 3]]), ("f", [[.i64 2]])]
 def w1M : DB := [("dr", [[.i64 2]]), ("p", [[.i64 1]])]
+example : (whyTree { rules := w1Prog, base := w1Base, derived := some w1M } "p" [.i64 1]).toWire
+    = "rule p i64:1 1 X=i64:1;Y=i64:3 2 fact e i64:1,i64:3 edb neg dr i64:3 c" := by decide
+example : valid w1Prog w1Base w1M (whyTree { rules := w1Prog, base := w1Base, derived := some w1M } "p" [.i64 1]) = true :=
+  C21 w1Prog w1Base w1M "p" [.i64 1] 50 (by decide) (by decide) (by decide) (by decide) (by decide)
 
-theorem C21_refuted : ¬ C21_statement := by
-  intro h
-  have := h w1Prog w1Base w1M "p" [.i64 1] 50 (by decide) (by decide) (by decide)
-  revert this
-  decide
-
-/-! Witness 2 (known finding `repeated_var_over_derived`): `p(X) <- f(X), d(Y,Y)` where `d` has no
-    diagonal tuple. `enumerate_derived_candidates` checks only the concrete positions of the pattern
-    and lets the last occurrence of `Y` win (prove_body.rs:293-312), so `d(2,3)` is taken as an
-    instance of `d(Y,Y)` and a "proof" through the first clause of `p` is returned although `p(1)` only
-    holds through the second one. (The clause order is the one `RuleCatalog::all_rules` produces for
-    this program in every run: `d`, then `z` and the first `p` clause in either order, then the second
-    `p` clause, which has to wait for `z`.) -/
 def w2Prog : Program :=
   [⟨⟨"d", [.var "X", .var "Y"]⟩, [.pos ⟨"e", [.var "X", .var "Y"]⟩, .cmp (.var "X") .lt (.var "Y")]⟩,
    ⟨⟨"z", [.var "X"]⟩, [.pos ⟨"d", [.var "X", .wild]⟩]⟩,
@@ -98,41 +102,21 @@ def w2Prog : Program :=
    ⟨⟨"p", [.var "X"]⟩, [.pos ⟨"f", [.var "X"]⟩, .pos ⟨"z", [.var "Y"]⟩]⟩]
 def w2Base : DB := [("e", [[.i64 2, .i64 3]]), ("f", [[.i64 1]])]
 def w2M : DB := [("d", [[.i64 2, .i64 3]]), ("z", [[.i64 2]]), ("p", [[.i64 1]])]
+example : valid w2Prog w2Base w2M (whyTree { rules := w2Prog, base := w2Base, derived := some w2M } "p" [.i64 1]) = true :=
+  C21 w2Prog w2Base w2M "p" [.i64 1] 50 (by decide) (by decide) (by decide) (by decide) (by decide)
 
-theorem C21_refuted_repeated_var : ¬ C21_statement := by
-  intro h
-  have := h w2Prog w2Base w2M "p" [.i64 1] 50 (by decide) (by decide) (by decide)
-  revert this
-  decide
-
-/-- **C21_partial (build_valid).** For every program in the fragment `c21Fragment` (decidable,
-    ILV.Model.ProvSpec: supported terms; no `_` in heads; safe negation; *negated relations have no
-    derived tuples* — this excludes `neg_over_derived`; *a positive atom over a relation with rules
-    repeats no variable* and has that relation's arity — this excludes `repeated_var_over_derived`; no NaN
-    constant; no variable spelled `_placeholder_…`), every base and derived data without NaN where only
-    relations with rules have derived tuples, every depth limit, every relation and every NaN-free tuple:
-    the tree the model chainer returns — including the handler's fallback root — is accepted by `valid`.
-    No assumption on recursion, on the derived data being correct or complete, or on the tuple being true.
-    Proof: builder invariant (every node of the DAG locally valid, memo table sound) preserved by
-    `build_node` / `prove_body` / the clause loop / the candidate enumerator at every level of the depth
-    tower (ILV.Lemmas.ProvChain.level_ok), then unfolded (`valid_unfold`). -/
-theorem C21_partial (prog : Program) (base M : DB) (rel : String) (tuple : Tuple) (depth : Nat)
-    (hf : c21Fragment prog M = true) (hd : derivedOnlyHeads prog M = true)
-    (hb : goodDB base = true) (hm : goodDB M = true) (ht : tuple.all goodV = true) :
-    valid prog base M (whyTree { rules := prog, base := base, derived := some M, maxDepth := depth } rel tuple) = true :=
-  whyTree_valid prog base M rel tuple depth hf hd hb hm ht
-
-/-- the hypotheses of `C21_partial` are met by a non-trivial recursive program with a join, a
-    comparison, a head constant and a negated stored relation. -/
+/-- the hypotheses of `C21` are met by a non-trivial recursive program with a join, a comparison, a
+    head constant, a negated stored relation and a negated *derived* relation. -/
 def pProg : Program :=
   [⟨⟨"path", [.var "X", .var "Y"]⟩, [.pos ⟨"e", [.var "X", .var "Y"]⟩]⟩,
    ⟨⟨"path", [.var "X", .var "Y"]⟩, [.pos ⟨"e", [.var "X", .var "Z"]⟩, .pos ⟨"path", [.var "Z", .var "Y"]⟩]⟩,
-   ⟨⟨"far", [.var "X", .int 7]⟩, [.pos ⟨"path", [.var "X", .var "Y"]⟩, .neg ⟨"f", [.var "Y"]⟩, .cmp (.var "X") .lt (.var "Y")]⟩]
+   ⟨⟨"far", [.var "X", .int 7]⟩, [.pos ⟨"path", [.var "X", .var "Y"]⟩, .neg ⟨"f", [.var "Y"]⟩, .cmp (.var "X") .lt (.var "Y")]⟩,
+   ⟨⟨"near", [.var "X"]⟩, [.pos ⟨"e", [.var "X", .wild]⟩, .neg ⟨"far", [.var "X", .wild]⟩]⟩]
 def pBase : DB := [("e", [[.i64 1, .i64 2], [.i64 2, .i64 3]]), ("f", [[.i64 2]])]
-def pM : DB := [("path", [[.i64 1, .i64 2], [.i64 2, .i64 3], [.i64 1, .i64 3]]), ("far", [[.i64 1, .i64 7], [.i64 2, .i64 7]])]
+def pM : DB := [("path", [[.i64 1, .i64 2], [.i64 2, .i64 3], [.i64 1, .i64 3]]), ("far", [[.i64 1, .i64 7], [.i64 2, .i64 7]]), ("near", [])]
 
 example : valid pProg pBase pM
     (whyTree { rules := pProg, base := pBase, derived := some pM, maxDepth := 50 } "far" [.i64 1, .i64 7]) = true :=
-  C21_partial pProg pBase pM "far" [.i64 1, .i64 7] 50 (by decide) (by decide) (by decide) (by decide) (by decide)
+  C21 pProg pBase pM "far" [.i64 1, .i64 7] 50 (by decide) (by decide) (by decide) (by decide) (by decide)
 
 end ILV.Props.C21
